@@ -1,11 +1,10 @@
-\* C16 quick, liveness under weak fairness: the destructor returns; cancelled children are reaped
+\* vacuity: lanes exit without looking at the priority list (seeded change C16_1) - ExactlyOnce must be violated
 CONSTANTS
   DtorWaitsBackground = TRUE
   NotifyOnAdd = TRUE
-  DrainPriority = TRUE
+  DrainPriority = FALSE
   MCConfig = 0
-  Scenarios <- LiveQuickScenarios
+  Scenarios <- VacDrainScenarios
 SPECIFICATION MCSpecSet
 INVARIANTS AtMostOnce ExactlyOnce LaneBound BgBound CompletionOnce OutputBeforeCompletion StatusTable ChildrenReaped
-PROPERTY Termination
-PROPERTY CancelReaps
+PROPERTY NoSpawnAfterCancel
